@@ -15,6 +15,10 @@ SEGS = [b"a", b"index.html", b"%20", b"%41", b"%2e%2e", b"%2F", b"%25", b"x y".r
 BAD_TARGETS = [b"http://[::1", b"/%zz", b"//[", b"/a b", b"\x00", b"/\xff\xfe", b"http://a:b/", b"/%", b"/%4", b"[", b"/a\x7f", b" "]
 NAMES = [b"Host", b"host", b"HOST", b"Content-Length", b"content-length", b"X-A", b"x-a", b"X-B", b"Accept", b"X-\xc9", b"x-\xe9",
          b"Authorization", b"Range", b"", b"A B"]
+# names a header line may carry: a blank name (NAMES has b"") makes the line malformed (the parser refuses it)
+NAMES_NB = [n for n in NAMES if n.strip()]
+# header lines with nothing but white space before the first colon: not of the form `name: value`
+BLANK_NAME_LINES = [b": v", b":", b" : v", b" \t:v", b"::", b"\r: v", b": a: b"]
 VALUES = [b"1", b"abc", b"", b"a, b", b"a:b", b" padded ", b"\tx\t", b"x" * 30, b"\xff\x00z", b"a\rb", b"a\nb", b"0", b"17"]
 
 
@@ -42,10 +46,10 @@ def target(rng, valid=True):
     return p
 
 
-def header_lines(rng, cl=None, malformed=False, nmax=5):
+def header_lines(rng, cl=None, malformed=False, nmax=5, names=NAMES):
     ls = []
     for _ in range(rng.randrange(0, nmax + 1)):
-        n = pick(rng, NAMES)
+        n = pick(rng, names)
         v = pick(rng, VALUES)
         if n.lower() == b"content-length":
             continue
@@ -58,7 +62,7 @@ def header_lines(rng, cl=None, malformed=False, nmax=5):
         name = pick(rng, [b"Content-Length", b"content-length", b"CONTENT-LENGTH", b"Content-length"])
         ls.insert(rng.randrange(len(ls) + 1), name + b":" + pick(rng, [b" ", b"", b"  "]) + cl)
     if malformed:
-        bad = pick(rng, [b"NoColonHere", b" ", b"novalue", b"\x00", b"a b c"])
+        bad = pick(rng, [b"NoColonHere", b" ", b"novalue", b"\x00", b"a b c"] + BLANK_NAME_LINES[:4])
         ls.insert(rng.randrange(len(ls) + 1), bad)
     return ls
 
@@ -67,7 +71,7 @@ def valid_head(rng, cl=None, plain=False):
     m = pick(rng, METHODS)
     t = b"/x" if plain else target(rng)
     v = pick(rng, VERSIONS)
-    ls = [] if plain else header_lines(rng, cl=None)
+    ls = [] if plain else header_lines(rng, cl=None, names=NAMES_NB)
     if cl is not None:
         name = pick(rng, [b"Content-Length", b"content-length", b"CONTENT-LENGTH"])
         ls.insert(rng.randrange(len(ls) + 1), name + b": " + cl)
@@ -964,7 +968,8 @@ def gen_C17(rng, count, tier):
 
 PSEG = ["a", "api", "x%20y", "r%2520f", "a%252Fb", "100%25", "caf%C3%A9", "a%0d%0aInjected:%20x", "%3F", "%23", "a+b", "%25", "%2f", "v1", "", "b;c", "a=b", "%41"]
 PHDR = [b"Host: example", b"Accept: */*", b"X-A: 1", b"x-a: 2", b"X-Forwarded-For: 9.9.9.9", b"X-Forwarded-For: 8.8.8.8, 7.7.7.7",
-        b"X-Real-IP: 5.5.5.5", b"Cookie: a=b; c=d", b"X-Empty: x", b"Connection: close"]
+        b"X-Real-IP: 5.5.5.5", b"Cookie: a=b; c=d", b"X-Empty: x", b"Connection: close",
+        b"X-CR: a\rb", b"X\rY: v", b"X-LF: a\nb"]       # a lone CR / LF is an ordinary byte for the parser
 
 
 def proxy_request(rng, with_body=True):
@@ -976,6 +981,9 @@ def proxy_request(rng, with_body=True):
     for _ in range(rng.randrange(0, 5)):
         h = pick(rng, PHDR)
         hs.append(h)
+    if rng.random() < 0.04:
+        # a line with a blank name: the request must be refused (400), nothing goes upstream
+        hs.insert(rng.randrange(len(hs) + 1), pick(rng, BLANK_NAME_LINES))
     n = pick(rng, [0, 0, 3, 10, 40]) if with_body else 0
     if with_body and rng.random() < 0.06:
         n = pick(rng, [65536, 65537, 70000, 150000])          # more than one 64 KiB read per event
@@ -1003,13 +1011,14 @@ def gen_C12(rng, count, tier):
         yield ("proxy", " ".join(evs))
 
 
-UP_HDRS = [b"Content-Type: text/plain", b"Set-Cookie: a=1", b"Set-Cookie: b=2", b"X-Up: v", b"x-up: w", b"Content-Length: 5", b"Server: up", b"X-Pad:   padded  "]
+UP_HDRS = [b"Content-Type: text/plain", b"Set-Cookie: a=1", b"Set-Cookie: b=2", b"X-Up: v", b"x-up: w", b"Content-Length: 5", b"Server: up", b"X-Pad:   padded  ",
+           b"X\rZ: a\rb"]
 
 
 def upstream_response(rng):
     k = rng.randrange(12)
     code = pick(rng, [b"200", b"404", b"301", b"100", b"599", b"204", b"500"])
-    reason = pick(rng, [b"OK", b"Not Found", b"", b"Weird Reason Text", b"OK"])
+    reason = pick(rng, [b"OK", b"Not Found", b"", b"Weird Reason Text", b"OK", b"O\rK", b"OK\r"])
     ver = pick(rng, [b"HTTP/1.1", b"HTTP/1.0", b"HTTP/1.1"])
     hs = [pick(rng, UP_HDRS) for _ in range(rng.randrange(0, 5))]
     first = ver + b" " + code + b" " + reason
@@ -1018,7 +1027,7 @@ def upstream_response(rng):
     elif k == 1:
         first = ver + b" " + code                      # two parts only
     elif k == 2:
-        hs.append(b"NoColonLine")
+        hs.insert(rng.randrange(len(hs) + 1), pick(rng, [b"NoColonLine"] + BLANK_NAME_LINES))
     body = bytes((j * 3 + 2) % 251 for j in range(pick(rng, [0, 1, 5, 30, 700])))
     if rng.random() < 0.2:
         body = b"\r\n\r\n" + body
